@@ -7,7 +7,8 @@ MAXLOOP = 6      # only used by the *oracle's* "fits in the budget" clause: expa
 
 PKGS = ["p", "q.r", "com.x"]
 CLSS = ["A", "B", "Svc", "Repo"]
-MTHS = ["a", "b", "c", "run", "get\"x", "m1", "say\"hi\""]      # (names with one and with two quotes)
+MTHS = ["a", "b", "c", "run", "get\"x", "m1", "say\"hi\"",      # (names with one and with two quotes)
+        "A", "Svc", "Save"]      # (a method named like its class - legal Java -, a capitalised method name)
 
 
 def gen_model(rng, wide=False):
